@@ -52,7 +52,25 @@ impl DaySelector {
 impl Display for DaySelector {
     fn fmt(&self, f: &mut std::fmt::Formatter<'_>) -> std::fmt::Result {
         if !(self.year.is_empty() && self.monthday.is_empty() && self.week.is_empty()) {
-            write_selector(f, &self.year)?;
+            // A single year directly followed by a month or a date would be parsed back as the
+            // year of this month or date only, so it is written as a range in such a case.
+            let year_binds_to_monthday = match (self.year.as_slice(), self.monthday.first()) {
+                ([year], Some(MonthdayRange::Month { year: None, .. })) => {
+                    year.range.start() == year.range.end() && year.step == 1
+                }
+                ([year], Some(MonthdayRange::Date { start: (date, _), .. })) => {
+                    year.range.start() == year.range.end() && year.step == 1 && !date.has_year()
+                }
+                _ => false,
+            };
+
+            if year_binds_to_monthday {
+                let year = self.year[0].range.start().deref();
+                write!(f, "{year}-{year}")?;
+            } else {
+                write_selector(f, &self.year)?;
+            }
+
             write_selector(f, &self.monthday)?;
 
             if !self.week.is_empty() {
